@@ -1,6 +1,8 @@
 """C19 - the learned distance depends on the data only through its geometry (metamorphic relations)."""
 import math
 
+import os
+
 import numpy as np
 from hypothesis import strategies as st
 
@@ -244,7 +246,18 @@ def check_c19(case, stats):
       ep = fit(Xp)
       worst = max(worst, float(np.abs(np.asarray(ep.pair_distance(Q)) - d1).max()) / ref)
     factor = 1000 if lbfgs else 100      # L-BFGS fits: the objective-level clause above is the sharp one
-    if dev > factor * worst + tight:
+    flat = False
+    if lbfgs and rel in ('translation', 'permutation') and dev > factor * worst + tight:
+      # both fits minimise the SAME function (clause above): if the two end points have the same objective value
+      # the optimiser stopped at two points of a flat optimum - rounding chaos, not a dependence on the origin
+      va = float(f1(np.asarray(e1.components_).ravel().copy(), *a1)[0])
+      vb = float(f1(np.asarray(e2.components_).ravel().copy(), *a1)[0])
+      flat = abs(va - vb) <= 1e-6 * max(1.0, abs(va))
+      if os.environ.get('VERIF_DEBUG'):
+        print('C19 flat-optimum probe', va, vb, dev, worst)
+    if flat:
+      stats.inconclusive['L-BFGS end points differ but reach the same objective value (flat optimum)'] += 1
+    elif dev > factor * worst + tight:
       raise Violation('C19/%s%s/%s' % (rel, '-far' if far else '', name), 'learned distances change by %g relative under %s (tolerance %g, one-ulp control %g); options %r'
                       % (dev, rel, tight, worst, m['opts']))
     cls = 'numerically-sensitive'
